@@ -19,13 +19,13 @@ MODULE = "mc.checks.c06"
 
 CLASSES = {
     "current": "MIT", "deprecated": "GPL-2.0", "deprecated-plus": "GPL-2.0+", "exception": "Autoconf-exception-3.0",
-    "licenseref": "LicenseRef-x", "unknown": "Nope-1.0", "wrong-case": "mit",
+    "licenseref": "LicenseRef-x", "unknown": "Nope-1.0", "wrong-case": "mit", "wrong-case-licenseref": "licenseref-x",
 }
 CLASSES2 = {  # seed-rotated second representative of every class
     "current": "Apache-2.0", "deprecated": "LGPL-2.1", "deprecated-plus": "LGPL-2.1+", "exception": "Classpath-exception-2.0",
-    "licenseref": "LicenseRef-My.Own-1", "unknown": "FooBar", "wrong-case": "apache-2.0",
+    "licenseref": "LicenseRef-My.Own-1", "unknown": "FooBar", "wrong-case": "apache-2.0", "wrong-case-licenseref": "LICENSEREF-Other.1",
 }
-USES = ["unused", "alone", "plus", "and", "or", "with", "paren", "two-tags", "dot-license", "reuse-toml", "dep5"]
+USES = ["unused", "alone", "plus", "and", "or", "with", "paren", "two-tags", "dot-license", "reuse-toml", "dep5", "case-twin-first", "case-twin-second"]
 PROVS = ["absent", "txt", "md", "noext", "subdir", "plus-txt", "txt+companion"]
 HELPER = "0BSD"
 EXC = "Bison-exception-2.2"
@@ -52,7 +52,7 @@ def cases(tier, seed):
 
 def expr_for(cls, ident, use):
     """(list of expression strings, identifiers used) for the target file."""
-    if use in ("alone", "dot-license", "reuse-toml", "dep5"):
+    if use in ("alone", "dot-license", "reuse-toml", "dep5", "case-twin-first", "case-twin-second"):
         return [ident], [ident]
     if use == "plus":
         return [ident + "+"], [ident + "+"]
@@ -104,6 +104,12 @@ def build(case):
                                      f"Files: src/f.py\nCopyright: 2020 Jane\nLicense: {exprs[0]}\n")
         else:
             recipe[target] = HEADER_C + "".join(f"# SPDX-License-Identifier: {e}\n" for e in exprs) + "print(1)\n"
+    if use.startswith("case-twin"):
+        # a second file uses the same identifier in the other letter case; it sorts before / after the target
+        twin = ident.swapcase() if ident.swapcase() != ident else ident.lower()
+        other = "src/a_twin.py" if use.endswith("first") else "src/z_twin.py"
+        recipe[other] = HEADER_C + f"# SPDX-License-Identifier: {twin}\n"
+        uses[other] = [twin]
     f = None
     if prov == "txt":
         f = f"LICENSES/{ident}.txt"
